@@ -1,0 +1,1 @@
+//! Hooks for property C37 (empty unless needed).
